@@ -158,6 +158,114 @@ func (c *Ctx) cumulativeTables(pkgs []*packages.Package) (map[types.Object]cumKi
 			}
 		}
 	}
+	// tables handed out by a helper: "return T, total" (or named results) makes
+	// result #i of the helper a table of T's kind; "x, y := helper(..)" makes x
+	// one, and a composite literal "field: x" the field.
+	resKind := map[types.Object]map[int]cumKind{}
+	for _, p := range pkgs {
+		if p == nil {
+			continue
+		}
+		info := p.TypesInfo
+		for _, file := range p.Syntax {
+			for _, d := range file.Decls {
+				fd, ok := d.(*ast.FuncDecl)
+				if !ok || fd.Body == nil || fd.Type.Results == nil {
+					continue
+				}
+				fobj := info.Defs[fd.Name]
+				var named []types.Object
+				for _, fl := range fd.Type.Results.List {
+					for _, n := range fl.Names {
+						named = append(named, info.Defs[n])
+					}
+				}
+				note := func(i int, o types.Object) {
+					if k, ok := kinds[o]; ok && o != nil {
+						if resKind[fobj] == nil {
+							resKind[fobj] = map[int]cumKind{}
+						}
+						resKind[fobj][i] = k
+					}
+				}
+				ast.Inspect(fd.Body, func(n ast.Node) bool {
+					if _, ok := n.(*ast.FuncLit); ok {
+						return false
+					}
+					ret, ok := n.(*ast.ReturnStmt)
+					if !ok {
+						return true
+					}
+					if len(ret.Results) == 0 {
+						for i, o := range named {
+							note(i, o)
+						}
+						return true
+					}
+					for i, e := range ret.Results {
+						note(i, exprObj(info, e))
+					}
+					return true
+				})
+			}
+		}
+	}
+	if len(resKind) > 0 {
+		for _, p := range pkgs {
+			if p == nil {
+				continue
+			}
+			info := p.TypesInfo
+			for _, file := range p.Syntax {
+				for _, d := range file.Decls {
+					fd, ok := d.(*ast.FuncDecl)
+					if !ok || fd.Body == nil {
+						continue
+					}
+					ast.Inspect(fd.Body, func(n ast.Node) bool {
+						as, ok := n.(*ast.AssignStmt)
+						if !ok || len(as.Rhs) != 1 {
+							return true
+						}
+						call, ok := ast.Unparen(as.Rhs[0]).(*ast.CallExpr)
+						if !ok {
+							return true
+						}
+						callee := calleeFunc(info, call)
+						if callee == nil || resKind[callee] == nil {
+							return true
+						}
+						for i, l := range as.Lhs {
+							if k, ok := resKind[callee][i]; ok {
+								if o := exprObj(info, l); o != nil {
+									kinds[o] = k
+									poss[o] = as.Pos()
+								}
+							}
+						}
+						return true
+					})
+					ast.Inspect(fd.Body, func(n ast.Node) bool {
+						if kv, ok := n.(*ast.KeyValueExpr); ok {
+							if kid, ok := kv.Key.(*ast.Ident); ok {
+								if fo, ok := info.Uses[kid].(*types.Var); ok && fo.IsField() {
+									if lo := exprObj(info, kv.Value); lo != nil {
+										if k, ok := kinds[lo]; ok {
+											if _, have := kinds[fo]; !have {
+												kinds[fo] = k
+												poss[fo] = kv.Pos()
+											}
+										}
+									}
+								}
+							}
+						}
+						return true
+					})
+				}
+			}
+		}
+	}
 	return kinds, poss
 }
 
